@@ -225,3 +225,31 @@ func VfC09_UpstreamStop() {
 		nd.Cover("stopped")
 	}
 }
+
+// VfC07_ConcurrentCallers: two requests for a backend without a connection arrive at the same
+// time: at most one connect attempt is in flight per address, both callers get the same live
+// connection (or the current connect error), nobody is parked.
+func VfC07_ConcurrentCallers() {
+	nd.ConcreteClock(true)
+	srv := vfNewServer()
+	srv.setUp(nd.Bool("reachable"))
+	u, _ := vfNewUpstream(nil)
+	var cs [2]*client
+	var errs [2]error
+	var done [2]bool
+	for i := 0; i < 2; i++ {
+		i := i
+		go func() { cs[i], errs[i] = u.getClient(srv.addr); done[i] = true }()
+	}
+	nd.PanicLabel("get-client")
+	nd.Quiesce()
+	nd.Assert(done[0] && done[1], "no caller is parked")
+	if srv.up {
+		nd.Assert(errs[0] == nil && errs[1] == nil && cs[0] != nil && cs[0] == cs[1], "concurrent callers share one live connection")
+		nd.Assert(len(srv.conns) == 1, "one connect attempt per address")
+		nd.Cover("shared")
+	} else {
+		nd.Assert(errs[0] != nil && errs[1] != nil, "an unreachable backend yields an error for every caller")
+	}
+	close(u.quit)
+}
